@@ -214,6 +214,10 @@ def prop_case(draw, shard, tier, family="propagators"):
         # the integrator walks epoch + k * step (at least 8 steps, also backward) in the epoch's own clock: a leap
         # second inside that walk is outside what the library handles (C03), whatever the label
         us += 2 * US_DAY
+    if kind == "iter" and not gd.leap_free(us - abs(dt) - 7 * 3600 * US, us + abs(dt) + 7 * 3600 * US, leaps):
+        # a range is walked start + k * step in the clock of its start date (C03): with a leap second inside it the
+        # UTC-labelled and the TAI-labelled range are different sets of instants, not one set under two labels
+        us += 2 * US_DAY
     dt = gd.push_out_of_leap_windows(us + dt, leaps) - us
     arg = draw(st.sampled_from(["date", "date", "timedelta"]))
     # NonePropagator.propagate(timedelta) stores the timedelta as the date (a C08 matter, not a label one)
